@@ -165,6 +165,16 @@ PROPS = {
         level_text='Contract of the CALL arm against a recording helper, for all ids, arguments and depths.',
         assumptions=['JIT and Cranelift call sites: units jit / cranelift'],
     ),
+    'C15': dict(
+        title='Disassembly reports every instruction\'s true fields and never panics',
+        parts=[
+            Part('disasm', lambda h: True,
+                 lambda h, c, info=None: in_file(c, 'src/disassembler.rs') and kani.is_panic_check(c) or 'ensures:' in desc(c) or 'instruction fetch outside' in desc(c),
+                 'per opcode (concrete opcode, all registers/offsets/immediates symbolic): one entry per instruction, fields equal the encoded fields, lddw halves merged, name == documented mnemonic, text == documented syntax (canonical form: literal characters + printed numbers), no panic (incl. off = -32768), fetches inside the program'),
+        ],
+        level_text='Every arm of the disassembler loop body plus its renderer, extracted verbatim, proved against a mnemonic/syntax table written from the documentation, for all operand values; core::fmt trusted; the loop closure (one step per instruction) is the induction argument of C01.',
+        assumptions=[],
+    ),
     'C17': dict(
         title='Instruction encoding and decoding are inverse, and all encoders agree',
         parts=[
